@@ -13,8 +13,8 @@ type BitMatrixParser struct {
 
 func NewBitMatrixParser(bitMatrix *gozxing.BitMatrix) (*BitMatrixParser, error) {
 	dimension := bitMatrix.GetHeight()
-	if dimension < 21 || (dimension&0x03) != 1 {
-		return nil, gozxing.NewFormatException("dimension = %v", dimension)
+	if dimension < 21 || (dimension&0x03) != 1 || bitMatrix.GetWidth() != dimension {
+		return nil, gozxing.NewFormatException("dimension = %vx%v", bitMatrix.GetWidth(), dimension)
 	}
 	return &BitMatrixParser{bitMatrix: bitMatrix}, nil
 }
